@@ -101,7 +101,7 @@ def classes():
 
 # --------------------------------------------------------------------------- calendars
 
-def build_calendar(pj, spec):
+def build_calendar(pj, spec, directs=None):
     t = spec['t']
     if t == 'weekly':
         return pj.WeeklyCalendar(start=D(spec.get('start')), end=D(spec.get('end')),
@@ -110,13 +110,16 @@ def build_calendar(pj, spec):
         return pj.WeeklyCalendar(start=D(spec.get('start')), end=D(spec.get('end')),
                                  units_per_day={int(k): v for k, v in spec['map'].items()})
     if t == 'direct':
-        return pj.DirectCalendar({D(k): v for k, v in spec['map'].items()})
+        c = pj.DirectCalendar({D(k): v for k, v in spec['map'].items()})
+        if directs is not None:
+            directs.append(c)
+        return c
     if t == 'fixed':
         return pj.FixedCalendar(spec['units'], start=D(spec.get('start')), end=D(spec.get('end')))
     if t == 'op':
-        a = build_calendar(pj, spec['a'])
+        a = build_calendar(pj, spec['a'], directs)
         b = spec['b']
-        b = build_calendar(pj, b) if isinstance(b, dict) else b
+        b = build_calendar(pj, b, directs) if isinstance(b, dict) else b
         o = spec['op']
         if o == '+':
             return a + b
@@ -171,11 +174,14 @@ class SWorld:
                 except RuntimeError:
                     self.rejected_links.append([s, p])
         self.resources = {}
+        self.directs = {}
         for r in sc.get('resources', []):
             if r['kind'] == 'sim':
                 self.resources[r['name']] = SimResource(r['name'], r['weekly'], r.get('overrides', {}))
             else:
-                self.resources[r['name']] = CountingResource(r['name'], build_calendar(pj, r['cal']))
+                directs = []
+                self.resources[r['name']] = CountingResource(r['name'], build_calendar(pj, r['cal'], directs))
+                self.directs[r['name']] = directs
         self.schedulers = {}
 
     # ---- structure helpers (from the scenario, independent of pjplan traversal)
@@ -184,6 +190,48 @@ class SWorld:
             if t['name'] == name:
                 return t
         return None
+
+    def mutate(self, m):
+        """apply a WBS edit between two calcs through the public API; returns True when accepted"""
+        k = m['kind']
+        try:
+            if k == 'add_link':
+                a, b = self.tasks.get(m['link'][0]), self.tasks.get(m['link'][1])
+                if a is None or b is None or b in list(a.predecessors):
+                    return False
+                a.predecessors.append(b)
+                return True
+            if k == 'remove_link':
+                a, b = self.tasks.get(m['link'][0]), self.tasks.get(m['link'][1])
+                if a is None or b is None or b not in list(a.predecessors):
+                    return False
+                a.predecessors.remove(b)
+                return True
+            if k == 'set_kw':
+                t = self.tasks.get(m['task'])
+                if t is None:
+                    return False
+                v = m['value']
+                if m['key'] in ('start', 'end', 'min_start') and v:
+                    v = D(v)
+                setattr(t, m['key'], v)
+                return True
+            if k == 'cal_set_units':
+                # in-place edit of a calendar (or of the peer's table) between two calcs
+                r = self.resources.get(m['res'])
+                if r is None:
+                    return False
+                if hasattr(r, 'overrides'):
+                    r.overrides[D(m['date']).date().isoformat()] = m['units']
+                    return True
+                ds = self.directs.get(m['res']) or []
+                if not ds:
+                    return False
+                ds[m.get('idx', 0) % len(ds)].set_units({D(m['date']): m['units']})
+                return True
+        except RuntimeError:
+            return False
+        raise core.HarnessError(f'bad mutation {m}')
 
     def make_scheduler(self, key):
         p = self.sc['schedulers'][key]
